@@ -69,7 +69,7 @@ func init() {
 	})
 
 	routeBounds := map[string]string{
-		"quick":    "10 curated rule sets (2 methods, literals aa/bb, *, **, {f}, {f=aa/*}, {f=aa/**}, {f=aa/bb/**}, {f=*/bb}, nested field paths, :vv verbs, GET/POST/custom-* bindings, plus the implicit /Svc/Method rules) x request verbs {GET, POST, other} x every ASCII path of 1..8 bytes starting with '/' (bytes symbolic)",
+		"quick":    "12 curated rule sets (2 methods, literals aa/bb, *, **, {f}, {f=aa/*}, {f=aa/**}, {f=aa/bb/**}, {f=*/bb}, nested field paths, :vv verbs, GET/POST/custom-* bindings, plus the implicit /Svc/Method rules) x request verbs {GET, POST, other} x every ASCII path of 1..8 bytes starting with '/' (bytes symbolic)",
 		"thorough": "same rule sets x every ASCII path of 1..10 bytes",
 	}
 	routeAssume := []string{"fake protoreflect descriptors (plain Go, embedded interfaces) drive the real addRule/match", "protoreflect.Value leaf helpers (typeOf, valueOfString/Bytes/Iface, get*) modelled; its public methods interpreted from source", "the path starts with '/' (Mux.ServeHTTP prepends one)", "bytes < 0x80 (ASCII tier)", "status.Errorf / fmt texts are placeholders"}
@@ -94,7 +94,8 @@ func init() {
 		Harnesses: []HarnessSpec{
 			{Name: "VerifH_addRule_sym", Covers: []string{"invalid-rejected", "unspecified", "unknown-field", "conflict", "valid-accepted", "valid-with-variable", "old-route-intact"}},
 			{Name: "VerifH_addRule_selectors", Covers: []string{"selector-rejected", "resp-whole", "resp-field"}},
-			{Name: "VerifH_addRule_collisions", Covers: []string{"redeclare-implicit", "own-path-verb", "star-vs-verb", "same-verb-conflict", "nested-bindings", "additional-bindings", "star-star-conflict"}},
+			{Name: "VerifH_addRule_mut", Covers: []string{"invalid-rejected", "unspecified", "valid-accepted", "valid-with-variable", "unknown-field"}},
+			{Name: "VerifH_addRule_collisions", Covers: []string{"redeclare-implicit", "own-path-verb", "star-vs-verb", "same-verb-conflict", "nested-bindings", "additional-bindings", "star-star-conflict", "same-short-name-conflict"}},
 		},
 		Bounds: map[string]string{
 			"quick":    "every ASCII template string of 0..8 bytes (all bytes symbolic) registered with the real addRule onto an empty and a pre-populated trie; body selectors: menu + every ASCII string of 1..4 bytes, response_body: menu + every ASCII string of 1..3 bytes; 7 collision scenarios",
@@ -128,5 +129,55 @@ func init() {
 		},
 		Assume:  []string{"encoding/base64 and net/textproto.CanonicalMIMEHeaderKey interpreted from source", "handler metadata keys are lower-case (metadata.New / Pairs contract)", "context.WithValue built directly (comparability check skipped)"},
 		Outside: []string{"client-visible trailers on gRPC / gRPC-web (needs the serveGRPC driver with the ResponseWriter model)", "grpc-go's client-side view, HPACK"},
+	})
+
+	addProp(&PropSpec{
+		ID: "C08",
+		Harnesses: []HarnessSpec{
+			{Name: "VerifH_readAll", Covers: []string{"within", "at-limit", "over"}},
+			{Name: "VerifH_writeAll", Covers: []string{"within", "over"}},
+			{Name: "VerifH_grpc_recv", Covers: []string{"delivered", "delivered-decompressed", "over-limit", "over-limit-after-decompression", "truncated", "stats-inpayload"}},
+			{Name: "VerifH_grpc_send", Covers: []string{"sent", "sent-above-receive-limit", "refused", "stats-outpayload"}},
+			{Name: "VerifH_proto_wire", Covers: []string{"over-limit", "prefix>=2^63", "message"}},
+			{Name: "VerifH_http_recv_body", Covers: []string{"upload", "multi-chunk", "empty-upload"}},
+			{Name: "VerifH_http_recv_stream", Covers: []string{"clean-eof", "truncated", "empty-stream"}},
+		},
+		Bounds: map[string]string{
+			"quick":    "limits symbolic in 1..6; unary bodies of 0..7 bytes over every read partition; gRPC frames with a symbolic flag byte, all 2^32 length prefixes, 0..7 payload bytes present, fake decompression to 0..8 bytes; replies of 0..8 bytes with independent symbolic send and receive limits; varint prefixes over all of uint64; HttpBody uploads of every length 0..3*limit+1",
+			"thorough": "unary bodies 0..9, gRPC payload 0..8, decompressed 0..10",
+		},
+		Assume:  []string{"Compressor is a fake whose output length is unrelated to its input (gzip's contract)", "recording codec stub (Unmarshal records the bytes it is handed)", "sync.Pool model: Get returns New() or the last Put object", "limits are symbolic small values: the comparisons are the same code as for the 4 MiB / 2 GiB defaults"},
+		Outside: []string{"WebSocket messages (gobwas/ws frame I/O is not encoded; larking/websocket.go:89 has no size check - by reading, D17)", "gzip's real expansion", "limit <= 0"},
+	})
+	addProp(&PropSpec{
+		ID: "C06",
+		Harnesses: []HarnessSpec{
+			{Name: "VerifH_http_recv_stream", Covers: []string{"clean-eof", "truncated", "eof-with-data", "empty-stream"}},
+			{Name: "VerifH_http_recv_body", Covers: []string{"upload", "multi-chunk", "empty-upload"}},
+			{Name: "VerifH_http_send", Covers: []string{"stream", "unary", "httpbody"}},
+			{Name: "VerifH_grpc_recv", Covers: []string{"delivered", "truncated"}},
+			{Name: "VerifH_grpc_send", Covers: []string{"sent"}},
+		},
+		Bounds: map[string]string{
+			"quick":    "HTTP client streams of k<=2 messages (proto: <=2 symbolic bytes each; json: 6-template grammar) through the real stream codecs, every read partition and EOF placement of streams <=9 bytes, every truncation offset; HttpBody uploads of every length 0..3*limit+1 for limit 1..3; server streams of 1..2 replies; one gRPC frame per direction",
+			"thorough": "k<=3, partitions of streams <=12 bytes, limit 1..4",
+		},
+		Assume:  []string{"recording codec stub; real framing (CodecProto / CodecJSON / codecHTTPBody)", "vfFragReader model of the io.Reader contract", "an empty request body may yield one body-less first message (carrying path/query params) or EOF: unspecified"},
+		Outside: []string{"WebSocket transport (gobwas/ws), gzip, real HTTP/2 flow control", "bidirectional interleaving (no goroutine model): the claim is per direction", "gRPC-web framing and multi-frame gRPC streams through serveGRPC (driver pending)"},
+	})
+	addProp(&PropSpec{
+		ID: "C04",
+		Harnesses: []HarnessSpec{
+			{Name: "VerifH_negotiate_type", Covers: []string{"negotiated", "default"}},
+			{Name: "VerifH_negotiate_raw", Covers: []string{"done"}},
+			{Name: "VerifH_http_send", Covers: []string{"unary", "response-body", "httpbody", "unary-refused", "httpbody-refused"}},
+			{Name: "VerifH_addRule_selectors", Covers: []string{"resp-field", "resp-whole"}},
+		},
+		Bounds: map[string]string{
+			"quick":    "Accept headers of 1..2 media ranges (*/*, a/*, a/b, x/y or a symbolic token/token) each with no q, q=0, q=1 or q=0.d (d symbolic), both separators; arbitrary Accept bytes of 0..5; replies of 0..4 symbolic bytes, HttpBody replies with symbolic content type (1..3 bytes) and data (0..7 bytes), symbolic send limit 1..6, response_body on/off",
+			"thorough": "arbitrary Accept bytes 0..6; replies 0..6",
+		},
+		Assume:  []string{"recording codec stub: the claim is that the body is what the codec named by Content-Type produced, not the byte-level correctness of JSON / protobuf", "q-values are concretised (one fractional digit)", "liberal RFC 7231 reading: a more specific q=0 is not required to veto"},
+		Outside: []string{"Content-Encoding truthfulness (needs the serveHTTP driver; gzip not encoded)", "byte-level JSON / protobuf encodings", "longer Accept headers and q-values with more digits"},
 	})
 }
